@@ -84,6 +84,17 @@ def run(res, tier):
             root = _entry_root(f, obj) if obj is not None else ('tmp',)
             rms = [r for r in f.walk() if r.is_call() and is_rm(r) and r.args() and _entry_root(f, r.args()[0]) == root and root[0] == 'v']
             ok = bool(rms) and P.must_precede(f, rms, c)
+            if not ok and not rms and root[0] == 'v':
+                # the recycling step was split off into a helper that receives the entry as a parameter: then every call of the helper is the retirement site
+                pi = [i_ for (i_, p_) in enumerate(f.params) if p_.get('d') == root[1]]
+                sites = [(g, cc) for g in base for cc in g.walk() if cc.is_call() and g is not f and (cc.get('fn') == f.id or ((cc.get('q') or '') == f.q and len(cc.args()) == len(f.params)))]
+                if pi and sites:
+                    ok = True
+                    for (g, cc) in sites:
+                        r2 = _entry_root(g, cc.args()[pi[0]]) if len(cc.args()) > pi[0] else ('tmp',)
+                        rms2 = [r for r in g.walk() if r.is_call() and is_rm(r) and r.args() and _entry_root(g, r.args()[0]) == r2 and r2[0] == 'v']
+                        ok = ok and bool(rms2) and P.must_precede(g, rms2, cc)
+                    rms = [1] * len(sites)
             res.ob('RETIRE-UNLINKS', f.where(c), '%s: the entry pushed to the free list was taken out of the iteration list first' % f.q.split('::')[-1], ok, function=f.q,
                    key='RETIRE-UNLINKS|%s|%d' % (f.q, n), how='%d RemoveIterationEntry call(s) on the same entry' % len(rms),
                    message='%s returns an entry to the free list on a path that has not called RemoveIterationEntry() for it: an iterator that is standing on the entry keeps pointing at a '
@@ -95,12 +106,16 @@ def run(res, tier):
     res.rule('MOVE-PAIRS', 'in a function that does not retire the entry, RemoveIterationEntry(e) is followed on every path to the exit by InsertIterationEntry*(e, …): a moved entry is put back '
                            'into the iteration order', floor=5)
     n = 0
+    retiring = dict((g.id, g) for g in base if not g.q.endswith('::PushToFreeList') and any(c.is_call() and is_push(c) for c in g.walk()))      # functions that recycle an entry they are given
     for f in base:
         if any(c.is_call() and is_push(c) for c in f.walk()) or f.q.endswith('::RemoveIterationEntry'):
             continue
         for r in (c for c in f.walk() if c.is_call() and is_rm(c) and c.args()):
-            n += 1
             root = _entry_root(f, r.args()[0])
+            # the unlink that belongs to a removal whose recycling step lives in a helper is RETIRE-UNLINKS' business, not a move
+            if any(c.is_call() and c.get('fn') in retiring and any(_entry_root(f, a_) == root for a_ in c.args()) for c in f.walk()):
+                continue
+            n += 1
             ins = [i for i in f.walk() if i.is_call() and is_ins(i) and i.args() and _entry_root(f, i.args()[0 if not (i.get('q') or '').endswith('InOrder') else 1]) == root]
             ok, path = P.must_follow(f, r, ins) if ins else (False, None)
             res.ob('MOVE-PAIRS', f.where(r), '%s: the entry taken out of the iteration list is put back on every path' % f.q.split('::')[-1], bool(ok), function=f.q,
